@@ -191,6 +191,33 @@ def r11_2(rep, M, rid, obj, br):
                       "relabellings of the axes the wrong standardised axis is made non-periodic", M.where(FQ, loop[0]))
     elif loop:
         raise AnalysisError("2D branch: scan of the transformation matrix not recognised")
+    if loop:
+        # the matrix is floating point (for a rotated input its "zero" entries are ~1e-16): exact zero tests on its entries are fragile
+        lp = loop[0]
+        tvn = [x.id for x in ast.walk(lp.target) if isinstance(x, ast.Name)]
+        rowv = tvn[-1] if tvn else None
+        exact = []
+        for x in ast.walk(lp):
+            if isinstance(x, ast.Call) and (M.ext_name(FQ, x.func) or "") in ("numpy.count_nonzero", "numpy.nonzero", "numpy.flatnonzero", "numpy.any", "numpy.all") \
+                    and any(isinstance(y, ast.Name) and y.id == rowv for a in x.args for y in ast.walk(a)) \
+                    and not any(isinstance(y, ast.Compare) for a in x.args for y in ast.walk(a)):
+                exact.append(x)
+            if isinstance(x, ast.Call) and isinstance(x.func, ast.Attribute) and x.func.attr in ("any", "all", "nonzero") and isinstance(x.func.value, ast.Name) and x.func.value.id == rowv:
+                exact.append(x)
+            if isinstance(x, ast.Compare) and len(x.ops) == 1 and isinstance(x.ops[0], (ast.Eq, ast.NotEq)) \
+                    and any(isinstance(c, ast.Constant) and c.value in (0, 0.0, 1, 1.0, -1) for c in [x.left] + x.comparators) \
+                    and any(isinstance(y, ast.Subscript) and isinstance(y.value, ast.Name) and y.value.id == rowv for c in [x.left] + x.comparators for y in ast.walk(c)):
+                exact.append(x)
+        tol = [x for x in ast.walk(lp) if isinstance(x, ast.Compare) and len(x.ops) == 1 and isinstance(x.ops[0], (ast.Lt, ast.LtE, ast.Gt, ast.GtE))
+               and any(isinstance(y, ast.Subscript) and isinstance(y.value, ast.Name) and y.value.id == rowv for y in ast.walk(x))]
+        if exact:
+            rep.violation(rid, f"2D branch: `{norm(exact[0])[:60]}` in the axis scan", "an exact zero / non-zero test on entries of spglib's floating-point transformation matrix: for a "
+                          "rigidly rotated input the vanishing entries are ~1e-16 instead of 0, the non-periodic axis is not found and get_conventional_system raises "
+                          "MatIDError", M.where(FQ, exact[0]))
+        elif len(tol) >= 3:
+            rep.ok(rid, "the axis scan compares all three entries of a row with a tolerance (no exact zero test on floating-point entries)")
+        else:
+            raise AnalysisError("2D branch: tolerance tests of the axis scan not recognised")
     raised = any(isinstance(t, ast.If) and idx and idx in norm(t.test) and "None" in norm(t.test) and any(isinstance(x, ast.Raise) for x in t.body)
                  for t in ast.walk(br))
     if all_true and one_false and loop and raised:
@@ -329,6 +356,15 @@ def run(rep, ctx):
              "swap for the Wyckoff solver happens on a copy (shared with C12)")
     with rep.guard("R11.9"):
         _SR.handed_out_objects_not_mutated(rep, ctx.model, "R11.9")
+    rep.rule("R11.10", "spglib is given the analysed structure unmodified with the analyzer's tolerance, and its standardised lattice / positions / types are used without a change of convention (shared with C05)")
+    with rep.guard("R11.10"):
+        from . import shared as _shb
+        _shb.spglib_boundary(rep, ctx.model, "R11.10")
+    rep.floor("R11.10", 7)
+    rep.rule("R11.11", "every tabulated normalizer is an automorphism of its group and an isometry of the lattice (the normalised cell is the same crystal in the same space group; shared with C05/C14)")
+    from . import shared as _shn
+    _shn.normalizer_tables(rep, ctx.tables, "R11.11", perm=False)
+    rep.floor("R11.11", 2400)
     rep.floor("R11.6", 12)
     rep.floor("R11.1", 7)
     rep.floor("R11.2", 2)
